@@ -301,7 +301,6 @@ Qed.
    default "uftrace.data" from two machines: the second SEND_DIR_NAME rotates the first client's
    directory away and from then on both clients append to the same files. *)
 Definition ud : bytes := str "uftrace.data".
-Definition n_task : bytes := str "task.txt".
 Definition evs_same : list (N * msg) :=
   [(1, MDir ud); (1, MData 11 [65]); (2, MDir ud); (1, MData 11 [66]); (2, MData 22 [67]);
    (1, MMeta n_task [97]); (2, MMeta n_task [98]); (1, MEnd); (2, MEnd)].
